@@ -24,6 +24,10 @@
 //!   R9 closure header `|x|` -> annotated header from `//@closure n` (types, result name, ensures); body verbatim
 //!   R10 `for P in E` -> `for P in it: E` when the loop contract names the ghost iterator (`//@loop n iter=it`)
 //!   R12 invocations of the crate's own single-rule macro_rules macros (src/lib.rs) are expanded textually
+//!   R10h (`//@loop n iter=it hoist`) `for P in E {` -> `let __itN = verif_hoist(E); let ghost __itsN = __itN@; for P in it: __itN {`
+//!   R14 (with R10h) `V.into_iter().rev()` -> `verif_rev_vec(V)`
+//!   R15 `for P in A..=B` -> `for P in A..verif_incl_end(B)` (requires B + 1 representable)
+//!   R13 reference patterns in a for-loop pattern: `&x` -> `__ref_x` + `let x = *__ref_x;` at the start of the body
 //!   R11 `Zip::from(X).and(Y).for_each(|a, b| BODY)` -> `for (a, b) in it: verif_zip2(X, Y) BODY` (closure body becomes the loop body)
 //!   R7 tail expression carrying an `after_call` anchor   -> { let __r = <tail>; <ghost>; __r }
 //! Exit codes: 0 ok, 3 lost anchor / item not found, 4 usage or internal error.
@@ -306,7 +310,10 @@ struct BodyScan {
     // loops in pre-order: (open brace offset of the body block, offset of its closing brace, stmt start, stmt end)
     loops: Vec<(usize, usize, usize, usize)>,
     // for loops: loop ordinal -> offset of the iterated expression (to name the ghost iterator, R10)
-    for_exprs: BTreeMap<usize, usize>,
+    for_exprs: BTreeMap<usize, (usize, usize)>,
+    // loops whose body ends in an expression statement without `;` (unit-valued tail): ghost code appended at the
+    // end of the body needs the `;` first
+    loop_tail_nosemi: std::collections::BTreeSet<usize>,
     // calls by name: (enclosing stmt)
     calls: BTreeMap<String, Vec<StmtInfo>>,
     lets: BTreeMap<String, Vec<StmtInfo>>,
@@ -336,6 +343,22 @@ fn pat_idents(p: &syn::Pat, out: &mut Vec<String>) {
         syn::Pat::Reference(r) => pat_idents(&r.pat, out),
         syn::Pat::TupleStruct(t) => t.elems.iter().for_each(|e| pat_idents(e, out)),
         syn::Pat::Paren(p) => pat_idents(&p.pat, out),
+        _ => {}
+    }
+}
+
+/// `&ident` sub-patterns (with their spans) of a pattern
+fn ref_pats(p: &syn::Pat, out: &mut Vec<(Span, String)>) {
+    match p {
+        syn::Pat::Reference(r) => {
+            if let syn::Pat::Ident(i) = &*r.pat {
+                if i.subpat.is_none() && i.by_ref.is_none() { out.push((r.span(), i.ident.to_string())); return; }
+            }
+            ref_pats(&r.pat, out)
+        }
+        syn::Pat::Tuple(t) => t.elems.iter().for_each(|e| ref_pats(e, out)),
+        syn::Pat::Paren(p) => ref_pats(&p.pat, out),
+        syn::Pat::Type(t) => ref_pats(&t.pat, out),
         _ => {}
     }
 }
@@ -459,6 +482,7 @@ impl<'a, 'ast> Visit<'ast> for Scanner<'a> {
         let (s, e) = self.src.range(l.span());
         let (bo, _) = self.src.range(l.body.brace_token.span.open());
         let (bc, _) = self.src.range(l.body.brace_token.span.close());
+        if matches!(l.body.stmts.last(), Some(syn::Stmt::Expr(_, None))) { self.scan.loop_tail_nosemi.insert(self.scan.loops.len()); }
         self.scan.loops.push((bo, bc, s, e));
         syn::visit::visit_expr_loop(self, l);
     }
@@ -466,16 +490,42 @@ impl<'a, 'ast> Visit<'ast> for Scanner<'a> {
         let (s, e) = self.src.range(l.span());
         let (bo, _) = self.src.range(l.body.brace_token.span.open());
         let (bc, _) = self.src.range(l.body.brace_token.span.close());
+        if matches!(l.body.stmts.last(), Some(syn::Stmt::Expr(_, None))) { self.scan.loop_tail_nosemi.insert(self.scan.loops.len()); }
         self.scan.loops.push((bo, bc, s, e));
         syn::visit::visit_expr_while(self, l);
     }
     fn visit_expr_for_loop(&mut self, l: &'ast syn::ExprForLoop) {
-        let (xs, _) = self.src.range(l.expr.span());
-        self.scan.for_exprs.insert(self.scan.loops.len(), xs);
+        let (xs, xe) = self.src.range(l.expr.span());
+        self.scan.for_exprs.insert(self.scan.loops.len(), (xs, xe));
         let (s, e) = self.src.range(l.span());
         let (bo, _) = self.src.range(l.body.brace_token.span.open());
         let (bc, _) = self.src.range(l.body.brace_token.span.close());
+        if matches!(l.body.stmts.last(), Some(syn::Stmt::Expr(_, None))) { self.scan.loop_tail_nosemi.insert(self.scan.loops.len()); }
         self.scan.loops.push((bo, bc, s, e));
+        // R15: `for P in A..=B` -> `for P in A..verif_incl_end(B)` (vstd specifies half-open ranges only; the shim
+        // function requires B + 1 not to overflow and returns B + 1)
+        if let syn::Expr::Range(r) = &*l.expr {
+            if let (Some(_), Some(end), syn::RangeLimits::Closed(tok)) = (&r.start, &r.end, &r.limits) {
+                let (ta, tb) = self.src.range(tok.span());
+                let (ea, eb) = self.src.range(end.span());
+                let et = self.src.text[ea..eb].to_string();
+                self.scan.rewrites.push((ta, tb, "..".into(), "R15".into()));
+                self.scan.rewrites.push((ea, eb, format!("verif_incl_end({})", et), "R15".into()));
+            }
+        }
+        // R13: reference patterns of the loop pattern (`for (&x, &w) in ..`) are desugared:
+        // `&x` -> `__ref_x` plus `let x = *__ref_x;` at the start of the body
+        let mut refs = vec![];
+        ref_pats(&l.pat, &mut refs);
+        if !refs.is_empty() {
+            let mut lets = String::new();
+            for (sp, name) in &refs {
+                let (a, b) = self.src.range(*sp);
+                self.scan.rewrites.push((a, b, format!("__ref_{}", name), "R13".into()));
+                lets.push_str(&format!(" let {} = *__ref_{};", name, name));
+            }
+            self.scan.rewrites.push((bo + 1, bo + 1, lets, "R13".into()));
+        }
         syn::visit::visit_expr_for_loop(self, l);
     }
     fn visit_arm(&mut self, a: &'ast syn::Arm) {
@@ -759,8 +809,25 @@ fn main() {
                             seq += 1;
                             if let Some(nm) = s.kv.get("iter") {
                                 // R10 (ghost only): name the for loop's ghost iterator: `for P in E` -> `for P in <nm>: E`
-                                let xo = scan.for_exprs.get(&n).unwrap_or_else(|| die(3, format!("lost-anchor: loop {} of {} is not a for loop", n, id)));
-                                edits.push((*xo, *xo, seq, format!("{}: ", nm), json!({"kind": "rewrite", "rule": "R10", "fn": id, "tags": body_tags})));
+                                let (xo, xe) = scan.for_exprs.get(&n).unwrap_or_else(|| die(3, format!("lost-anchor: loop {} of {} is not a for loop", n, id)));
+                                if s.kv.contains_key("hoist") {
+                                    // R10h: the iterated expression is evaluated once, before the loop, into a vector
+                                    // (`let __itN = verif_hoist(E); for P in it: __itN`), so that the invariant can name its elements
+                                    let etext = src.text[*xo..*xe].trim().to_string();
+                                    // R14: `V.into_iter().rev()` (a vector consumed back to front) -> `verif_rev_vec(V)`
+                                    let squeezed: String = etext.split_whitespace().collect();
+                                    let hoisted = if squeezed.ends_with(".into_iter().rev()") {
+                                        let base = &squeezed[..squeezed.len() - ".into_iter().rev()".len()];
+                                        format!("verif_rev_vec({})", base)
+                                    } else {
+                                        format!("verif_hoist({})", etext)
+                                    };
+                                    edits.push((lp.2, lp.2, seq, format!("let __it{} = {}; let ghost __its{} = __it{}@;\n", n, hoisted, n, n), json!({"kind": "rewrite", "rule": "R10h", "fn": id, "tags": body_tags})));
+                                    seq += 1;
+                                    edits.push((*xo, *xe, seq, format!("{}: __it{} ", nm, n), json!({"kind": "rewrite", "rule": "R10h", "fn": id, "tags": body_tags})));
+                                } else {
+                                    edits.push((*xo, *xo, seq, format!("{}: ", nm), json!({"kind": "rewrite", "rule": "R10", "fn": id, "tags": body_tags})));
+                                }
                                 seq += 1;
                             }
                         }
@@ -839,7 +906,8 @@ fn main() {
                                     let n: usize = s.args.get(1).and_then(|x| x.parse().ok()).unwrap_or_else(|| die(4, "loop anchor needs ordinal".into()));
                                     let lp = scan.loops.get(n).unwrap_or_else(|| die(3, format!("lost-anchor: loop {} of {} not found", n, id)));
                                     let at = match what { "before_loop" => lp.2, "after_loop" => lp.3, _ => lp.1 };
-                                    edits.push((at, at, seq, format!("\n{}\n", s.text), meta));
+                                    let semi = if what == "loop_end" && scan.loop_tail_nosemi.contains(&n) { ";" } else { "" };
+                                    edits.push((at, at, seq, format!("{}\n{}\n", semi, s.text), meta));
                                 }
                                 _ => die(4, format!("unknown anchor {} in {}", what, id)),
                             }
